@@ -15,6 +15,9 @@ def gen(ctx):
     rng = ctx.rng
     yield dict(kind="rev", hist=[[0, 1, 1, 0, 1, 0, 0, 1]], prev=[0, 1, 1, 0, 1, 0, 0, 1], R=90, T=4, form="view0")
     yield dict(kind="rev", hist=[[0, 1, 1, 0, 1, 0, 0, 1]], prev=[0, 1, 1, 0, 1, 0, 0, 1], R=90, T=4, form="viewlast")
+    for dt in ("uint8", "int8", "int64", "uint16"):
+        yield dict(kind="rev", hist=[[0, 0, 0, 1, 1, 0, 1, 1, 0]], prev=[0, 0, 0, 1, 1, 0, 1, 1, 0], R=90, T=6, form="view0", dtype=dt)
+        yield dict(kind="rev", hist=[[0, 0, 0, 1, 1, 0, 1, 1, 0]], prev=[1, 0, 0, 1, 0, 0, 1, 1, 0], R=30, T=5, form="array", dtype=dt)
     for _ in range(ctx.n(600, 6000)):
         N = rng.randint(1, 12)
         row = [rng.randint(0, 1) for _ in range(N)]
@@ -22,7 +25,8 @@ def gen(ctx):
         H = rng.choice([1, 1, 2]) if form != "view0" else 1
         hist = [[rng.randint(0, 1) for _ in range(N)] for _ in range(H - 1)] + [row]
         prev = list(row) if form in ("view0", "viewlast") else [rng.randint(0, 1) for _ in range(N)]
-        yield dict(kind="rev", hist=hist, prev=prev, R=rng.randrange(256), T=rng.randint(1, 8), form=form)
+        yield dict(kind="rev", hist=hist, prev=prev, R=rng.randrange(256), T=rng.randint(1, 8), form=form,
+                   dtype=rng.choice(["int32", "int32", "int64", "uint8", "int8", "uint16", "int16"]))
 
 
 def line(c):
@@ -31,11 +35,12 @@ def line(c):
 
 def run(c):
     import cellpylib as cpl
-    ca = np.array(c["hist"], dtype=np.int32)
+    dt = c.get("dtype", "int32")
+    ca = np.array(c["hist"], dtype=dt)
     if c["form"] == "list":
         init = list(c["prev"])
     elif c["form"] == "array":
-        init = np.array(c["prev"], dtype=np.int32)
+        init = np.array(c["prev"], dtype=dt)
     elif c["form"] == "view0":
         init = ca[0]
     else:
@@ -88,7 +93,7 @@ def oracle(c):
     if c["T"] >= 2:
         import cellpylib as cpl
         last, before = rows[-1], rows[-2] if len(rows) >= 2 else None
-        ca2 = np.array([before], dtype=np.int32)
+        ca2 = np.array([before], dtype=c.get("dtype", "int32"))
         back = cpl.evolve(ca2, timesteps=c["T"], apply_rule=cpl.ReversibleRule(list(last), c["R"]), r=1).tolist()
         want = list(reversed(rows[H - 1:-1])) + [list(c["prev"])]
         if back != want:
